@@ -16,17 +16,17 @@ theorem cycle_inactive (cfg : Delays) (s : Throttler) (t : Int) (i : CycleIn) (h
   simp [cycle, phase1_inactive s t i.wake1 h]
 
 /-- an error-of-interest cycle on a throttler that is not active, with no wake-up in the 2nd sleep -/
-theorem cycle_error_quiet (nth : Nat → Option Int) (s : Throttler) (t : Int) (ran : Bool) (dur : Nat)
+theorem cycle_error_quiet (cfg : Delays) (s : Throttler) (t : Int) (ran : Bool) (dur : Nat)
     (w1 : Option Nat) (h : s.activeUntil = none) :
-    let o := cycle (.seq nth) s t ⟨.error true, ran, dur, w1, none⟩
-    let nd := nextDelay nth (s.src.getD 0) s.last
+    let o := cycle cfg s t ⟨.error true, ran, dur, w1, none⟩
+    let nd := nextDelay cfg.nth (s.src.getD 0) s.last
     o.shouldRun = true ∧ o.escaped = .none_ ∧ o.activated = nd.1 ∧ o.st.activeUntil = none ∧
     o.st.src = some nd.2 ∧ o.st.last = (match nd.1 with | some d => some d | none => s.last) ∧
     o.sleep2 = (match nd.1 with | some d => pauseLen d | none => 0) ∧ o.fin = t + dur + o.sleep2 := by
   rw [cycle_inactive _ s t _ h]
   unfold phase2
   simp only [h, Option.isNone_none, Bool.true_or, if_true, Bool.not_true, Bool.false_eq_true, if_false]
-  cases (nextDelay nth (s.src.getD 0) s.last).1 with
+  cases (nextDelay cfg.nth (s.src.getD 0) s.last).1 with
   | none => simp [h]
   | some d =>
     have : (aioSleep (t + ↑dur + d - (t + ↑dur)) none).1 = pauseLen d := by
@@ -56,8 +56,8 @@ theorem error_step (l : List Int) (p : Nat) (s : Throttler) (t : Int) (ran : Boo
     (cycle (Delays.ofList l) s t ⟨.error true, ran, dur, w1, none⟩).fin =
       t + dur + (cycle (Delays.ofList l) s t ⟨.error true, ran, dur, w1, none⟩).sleep2 := by
   obtain ⟨hau, hs⟩ := h
-  have hq := cycle_error_quiet (fun i => l[i]?) s t ran dur w1 hau
-  simp only [Delays.ofList] at *
+  have hq := cycle_error_quiet (Delays.ofList l) s t ran dur w1 hau
+  simp only [Delays.ofList, Delays.nth] at *
   obtain ⟨h1, h2, h3, h4, h5, h6, h7, h8⟩ := hq
   have hact : (cycle (Delays.seq fun i => l[i]?) s t ⟨.error true, ran, dur, w1, none⟩).activated
       = l[min p (l.length - 1)]? := ?hact
@@ -161,19 +161,19 @@ theorem phase2_success (cfg : Delays) (s1 : Throttler) (t1 sl1 : Int) (i : Cycle
   unfold phase2
   cases h : s1.activeUntil <;> simp [hb, Throttler.fresh]
 
-theorem phase2_escaped (nth : Nat → Option Int) (s1 : Throttler) (t1 sl1 : Int) (i : CycleIn) :
-    (i.body = .error true → s1.activeUntil = none → (phase2 (.seq nth) s1 t1 sl1 i).escaped = .none_) ∧
+theorem phase2_escaped (cfg : Delays) (s1 : Throttler) (t1 sl1 : Int) (i : CycleIn) :
+    (i.body = .error true → s1.activeUntil = none → (phase2 cfg s1 t1 sl1 i).escaped = .none_) ∧
     (i.body = .baseExc → (s1.activeUntil = none ∨ i.ran = true) →
-      (phase2 (.seq nth) s1 t1 sl1 i).escaped = .baseException) ∧
+      (phase2 cfg s1 t1 sl1 i).escaped = .baseException) ∧
     (i.body = .error false → (s1.activeUntil = none ∨ i.ran = true) →
-      (phase2 (.seq nth) s1 t1 sl1 i).escaped = .exception) ∧
+      (phase2 cfg s1 t1 sl1 i).escaped = .exception) ∧
     (i.body = .error true → s1.activeUntil ≠ none → i.ran = true →
-      (phase2 (.seq nth) s1 t1 sl1 i).escaped = .exception) := by
+      (phase2 cfg s1 t1 sl1 i).escaped = .exception) := by
   unfold phase2
   refine ⟨?_, ?_, ?_, ?_⟩
   · intro hb h
     simp only [hb, h, Option.isNone_none, Bool.true_or, if_true, Bool.not_true, Bool.false_eq_true, if_false]
-    cases (nextDelay nth (s1.src.getD 0) s1.last).1 <;> rfl
+    cases (nextDelay cfg.nth (s1.src.getD 0) s1.last).1 <;> rfl
   · intro hb h
     rcases h with h | h <;> simp [hb, h]
   · intro hb h
